@@ -32,7 +32,7 @@ Quantifier: {(p.get('quantifier') or {}).get('text', '')}
 
 WHAT TO PRODUCE
 1. A change to the logos sources (logos-codegen/, src/, logos-derive/, logos-cli/ - not tests) that makes the property false for some definitions/inputs/call sequences. It should look like something a maintainer could plausibly write (an optimisation, a refactoring slip, a boundary condition, a helper that is subtly wrong, two sites that each look fine alone) - not sabotage, and not something ordinary use would expose at once: it must need something specific to manifest (an unusual input, a particular definition shape, a multi-step sequence of calls, a particular feature combination, a boundary value).
-2. The whole existing suite must still pass with the change: `cargo test --workspace --no-fail-fast --offline` run in {wt} (172 passed counting doctests, snapshot tests included), with your demonstration file moved aside.
+2. The existing suite must pass UNEDITED (do not modify, regenerate or add any file under a tests/ directory, snapshot files included, other than the demonstration of item 3). The whole existing suite must still pass with the change: `cargo test --workspace --no-fail-fast --offline` run in {wt} (172 passed counting doctests, snapshot tests included), with your demonstration file moved aside.
 3. A demonstration: the file {wt}/tests/tests/seeded_demo.rs (an integration test of the `tests` crate, run with `cargo test -p tests --test seeded_demo --offline`) that FAILS with your change applied and PASSES on the unchanged sources. It should check the property on the triggering case in the property's own terms.
 4. Earlier rounds already produced the following changes for this property. Yours must use a DIFFERENT mechanism in a DIFFERENT place of the code (another file or another function, another trigger):
 {names}
